@@ -27,7 +27,7 @@ def run(tier, t0):
     dctx = div.Ctx(prog, an)
     results = [idx.idx(prog, scope, 150, an), idx.cap_callers(prog, scope, 380, cg), idx.cap_callee(prog),
                term.eof(prog, scope, 50), term.rec(prog, cg, [common.ASM_MAIN]), div.div(prog, scope, 60, ctx=dctx),
-               lane.wrap_pages(prog, 2), tbl.ttbl(prog), null.null_a(prog, scope, 20), term.pool_fit(prog, cg), expr.cap_protocol(prog)]
+               lane.wrap_pages(prog, 2), tbl.ttbl(prog), null.null_a(prog, scope, 20), term.pool_fit(prog, cg), expr.cap_protocol(prog), idx.ptr_into_array(prog, scope, an)]
     return report.finish('C16', tier, results, EXPLANATION,
                          ['the invariants listed for not-decided subscripts were read from the code and replayed under ASan '
                           'during triage; they are not re-proved by the check'], common.TRUSTED, t0)
